@@ -59,6 +59,10 @@ def gen(rng, cancels=False, faults=False, env_cancels=False):
         for i in range(nsub):
             for _ in range(rng.choice([0, 1, 1, 2])):
                 p["cancels"].append({"j": i, "delay": rng.choice([0, 0, 1, 2, 3, 5]), "after_dsub": rng.choice([0, 0, 1, 2])})
+            if rng.random() < 0.35:
+                # a cancel() that lands while the policy is being consulted (it returns False and sets stop_retry on the job that is
+                # about to be re-queued), followed at once by a second one, which then races with the submit thread's discard of that job
+                p["cancels"].append({"j": i, "delay": 0, "after_dsub": 0, "at_sr": rng.randint(1, 2), "twice": True, "gap": rng.randint(0, 10)})
     if env_cancels:
         # (drawn last, so the scenario streams of the families without environment cancels are unchanged)
         # delegate future i (mod 16) is cancelled by SOMEONE ELSE -- the environment thread that would have run it calls
@@ -82,6 +86,7 @@ def execute(p, chooser):
             class P(ExceptionRetryPolicy):
                 def should_retry(self, attempt, future):
                     ans = ExceptionRetryPolicy.should_retry(self, attempt, future)
+                    obs["nsr"] = obs.get("nsr", 0) + 1
                     det.user("should_retry", (attempt, 1 if ans else 0))
                     return ans
 
@@ -98,6 +103,7 @@ def execute(p, chooser):
                 def should_retry(self, attempt, future):
                     a = pol["sr"][cnt["sr"]] if cnt["sr"] < len(pol["sr"]) else 0
                     cnt["sr"] += 1
+                    obs["nsr"] = obs.get("nsr", 0) + 1
                     det.user("should_retry", (attempt, a))
                     if a == 2:
                         raise RuntimeError("policy fault")
@@ -179,23 +185,27 @@ def execute(p, chooser):
 
         def canceller(c, idx):
             def run():
-                det.wait_until(lambda: stop["v"] or (c["j"] in futs and len(m.fs) >= c["after_dsub"]))
+                det.wait_until(lambda: stop["v"] or (c["j"] in futs and len(m.fs) >= c["after_dsub"] and obs.get("nsr", 0) >= c.get("at_sr", 0)))
                 if stop["v"]:
                     return
                 if c["delay"]:
                     det.sleep(c["delay"])
                 f = futs[c["j"]]
-                det.emit("call", "cancel", c["j"])
-                try:
-                    r = f.cancel()
-                except BaseException as e:
-                    if isinstance(e, det.Abort):
-                        raise
-                    det.emit("ret", "cancel", 9)
-                    obs["cancel_rets"].append((c["j"], type(e).__name__, len(det.S.log)))
-                    return
-                det.emit("ret", "cancel", 2 if r else 1)
-                obs["cancel_rets"].append((c["j"], r, len(det.S.log)))
+                for rep in range(2 if c.get("twice") else 1):
+                    if rep:
+                        for _ in range(c.get("gap", 0)):
+                            det.switch("gap")       # let the re-queue and the submit thread's wake-up get under way
+                    det.emit("call", "cancel", c["j"])
+                    try:
+                        r = f.cancel()
+                    except BaseException as e:
+                        if isinstance(e, det.Abort):
+                            raise
+                        det.emit("ret", "cancel", 9)
+                        obs["cancel_rets"].append((c["j"], type(e).__name__, len(det.S.log)))
+                        return
+                    det.emit("ret", "cancel", 2 if r else 1)
+                    obs["cancel_rets"].append((c["j"], r, len(det.S.log)))
             return run
 
         stop = {"v": False}
